@@ -22,6 +22,9 @@ FN1 = ["neg", "pos", "conj", "proj", "abs", "arg", "norm", "exp", "log", "log10"
 TYPES = ["float", "double"]
 PARTS = ["ADDSUB", "MUL", "DIV", "MISC"]
 MTYPES = ["F", "D", "I", "L"]       # float, double, int, long double (typedefs c10::ty_F ...)
+# part MIXC: compound assignment between xcomplex objects of different value types; left value types (the statement's T)
+MC_LEFT = ["F", "D"]
+MIXC_MACROS = ("MCMPD", "MCSTD", "MCS")
 # part SCALAR: the scalar operand of x op s, s op x, x op= s, x = s has any standard arithmetic type (typedefs c10::sc_<token>;
 # same order as C10_STYPES in harness.cpp).  The types are split over NSGROUP binaries per T (index % NSGROUP).
 STYPES = ["bool", "char", "schar", "uchar", "wchar", "char16", "char32", "short", "ushort", "int", "uint", "long", "ulong", "llong",
@@ -112,6 +115,21 @@ def entries():
     for op in OPS:
         for t1, t2 in [("F", "D"), ("D", "F"), ("I", "D"), ("D", "I")]:
             out.append(("MBIN", (op, t1, t2)))
+    # part MIXC: x op= y with x over T1 in {float, double} and y over a DIFFERENT value type T2 in {float, double, int, long double}:
+    # lhs closure kinds {V, R} x rhs closure kinds {V, R, C} x 2x2 ieee flags x 4 ops; the right operand converted from a
+    # std::complex<T2> (MCSTD, well-formed) and handed over as a std::complex<T2> directly (MCS, no overload on the pinned tree)
+    for t1 in MC_LEFT:
+        for t2 in MTYPES:
+            if t2 == t1:
+                continue
+            for op in OPS:
+                for b1, b2 in itertools.product(FLAGS, FLAGS):
+                    for k1, k2 in itertools.product(["KV", "KR"], KINDS):
+                        out.append(("MCMPD", (op, t1, k1, b1, t2, k2, b2)))
+                if t2 != "I":       # std::complex<int> is unspecified
+                    for b1 in FLAGS:
+                        out.append(("MCSTD", (op, t1, b1, t2)))
+                        out.append(("MCS", (op, t1, "KV", b1, t2)))
     # scalars of every arithmetic type (part SCALAR)
     for st in STYPES:
         for op in OPS:
@@ -172,6 +190,13 @@ def wellformed_on_pinned_tree(e):
         op, b1, k2, b2 = a
         return wellformed_on_pinned_tree(("CMPD", (op, "KR", b1, k2, b2)))
     if m == "MBIN":
+        return False
+    if m == "MCMPD":
+        # *= and /= assign a temporary of the lhs value type to *this: fine for a value-closure lhs whatever the rhs is;
+        # += and -= read the private members of the other instantiation
+        op, t1, k1, b1, t2, k2, b2 = a
+        return op in ("mul", "div") and k1 == "KV"
+    if m == "MCS":
         return False
     return True
 
@@ -236,6 +261,15 @@ def probe_text(e):
         elif m == "MBIN":
             if t == TYPES[0]:
                 parts.append("template void m_bin<ty_%s, ty_%s, op_%s>(const long double*, long double*);" % (a[1], a[2], a[0]))
+        elif m == "MCMPD":
+            if t == TYPES[0]:
+                parts.append("template void m_cmpd<ty_%s, %s, %s, ty_%s, %s, %s, op_%s>(MIO&);" % (a[1], a[2], a[3], a[4], a[5], a[6], a[0]))
+        elif m == "MCSTD":
+            if t == TYPES[0]:
+                parts.append("template void m_cstd<ty_%s, %s, ty_%s, op_%s>(MIO&);" % (a[1], a[2], a[3], a[0]))
+        elif m == "MCS":
+            if t == TYPES[0]:
+                parts.append("template void m_cs<ty_%s, %s, %s, ty_%s, op_%s>(MIO&);" % (a[1], a[2], a[3], a[4], a[0]))
         else:
             raise ValueError(m)
     return " ".join(parts)
@@ -278,6 +312,15 @@ def representative(e):
     of them then not compile the build fails and the probe_all pass names it."""
     if e[0] == "XSLEFT":
         return ("SLEFT", e[1][:3])
+    # part MIXC: neither cause of ill-formedness (+= / -= / operator= between two different xcomplex instantiations; no compound
+    # overload for a std::complex right operand) involves the two value types or the ieee flags: one probe per (op, closure kinds)
+    if e[0] == "MCMPD":
+        op, t1, k1, b1, t2, k2, b2 = e[1]
+        r = ("MCMPD", (op, "D", k1, "false", "F", k2, "false"))
+        return None if r == e else r
+    if e[0] == "MCS":
+        r = ("MCS", (e[1][0], "D", "KV", "false", "F"))
+        return None if r == e else r
     return None
 
 
@@ -342,7 +385,7 @@ def build_part(gendir, t, part):
 def build_all(ctx, which=None):
     enabled, ill, newly, _ = manifest(ctx)
     gendir = gen_inc(enabled)
-    todo = [(t, p) for t in TYPES for p in PARTS + SPARTS] + [("double", "MIXED")]
+    todo = [(t, p) for t in TYPES for p in PARTS + SPARTS] + [("double", "MIXED"), ("double", "MIXC")]
     todo = [(t, p) for t, p in todo if which is None or tag_of(t, p) == which]
     try:
         bins = vlib.parallel([(lambda t=t, p=p: build_part(gendir, t, p)) for t, p in todo], workers=min(16, vlib.NCPU))
@@ -364,8 +407,21 @@ def run(ctx):
     nshard = {"ADDSUB": 6, "MUL": 12, "DIV": 12, "MISC": 30} if thorough else {"ADDSUB": 1, "MUL": 2, "DIV": 2, "MISC": 3}
     deadline = int(time.time() + max(30, ctx.time_left() - 90))
     jobs = []
+
+    def mixed_jobs(part, n):
+        # parts MIXED (== / != between value types) and MIXC (compound assignment between value types).  They are not queued last:
+        # on a loaded machine the jobs at the end of the queue are the ones a deadline cuts, and inside these binaries a cut removes
+        # the last operand rows of every variant alike (see run_mixed / run_mixc in harness.cpp), never whole variants
+        for k in range(n):
+            args = ["--tier", ctx.tier, "--shard", str(k), str(n), "--deadline", str(deadline)]
+            jobs.append(lambda a=args, b=bins[("double", part)], tg=tag_of("double", part): ctx.run_harness(b, a, tag=tg))
+
     # heaviest parts first
     for part in ["MISC", "DIV", "MUL", "ADDSUB"]:
+        if part == "MUL":
+            mixed_jobs("MIXC", 12 if thorough else 4)
+        if part == "ADDSUB":
+            mixed_jobs("MIXED", 12 if thorough else 4)
         for t in TYPES:
             n = nshard[part]
             for k in range(n):
@@ -378,10 +434,6 @@ def run(ctx):
             for k in range(ns):
                 args = ["--tier", ctx.tier, "--shard", str(k), str(ns), "--deadline", str(deadline)]
                 jobs.append(lambda b=bins[(t, part)], a=args, tg=tag_of(t, part): ctx.run_harness(b, a, tag=tg))
-    nm = 12 if thorough else 4
-    for k in range(nm):
-        args = ["--tier", ctx.tier, "--shard", str(k), str(nm), "--deadline", str(deadline)]
-        jobs.append(lambda a=args: ctx.run_harness(bins[("double", "MIXED")], a, tag=tag_of("double", "MIXED")))
     vlib.parallel(jobs, workers=min(16, vlib.NCPU))
     # deterministic choice of the reported example per signature, whatever order the shards finished in
     ctx.viols.sort(key=lambda v: (v["sig"], v["harness"] or "", v["args"]))
@@ -389,22 +441,31 @@ def run(ctx):
         raise vlib.HarnessError("C10: the Annex G rule table and libstdc++'s std::complex disagree on %d premise-matching operand pairs: %s" % (
             ctx.stats["oracle_disagreements"], [n for n in ctx.notes if n.startswith("ORACLE-DISAGREEMENT")][:5]))
     nv = ctx.maxes.get("alphabet_size", 0)
-    weight = lambda e: 1 if e[0] in ("MEQ", "MNE", "MBIN") else len(TYPES)      # mixed-type entries name their own types
+    weight = lambda e: 1 if e[0] in ("MEQ", "MNE", "MBIN") + MIXC_MACROS else len(TYPES)      # mixed-type entries name their own types
     ctx.stat("instantiations_enabled", sum(weight(e) for e in enabled))
     ctx.stat("instantiations_ill_formed", sum(weight(e) for e in ill))
     if ill:
         # the scalar-type entries are listed once per (form, operation, closure kind, flag) when every scalar type is affected
         names, by_rest = [], {}
+        mc = {}
         for e in ill:
             if e[0] in SCALAR_MACROS:
                 by_rest.setdefault((e[0], e[1][:-1]), []).append(e[1][-1])
+            elif e[0] == "MCMPD":
+                # listed once per (operation, closure kinds): the value types and flags do not matter for the cause
+                mc.setdefault("MCMPD(%s,<T1>,%s,<b1>,<T2>,%s,<b2>)" % (e[1][0], e[1][2], e[1][5]), []).append(e)
+            elif e[0] == "MCS":
+                mc.setdefault("MCS(%s,<T1>,KV,<b1>,std::complex<T2>)" % e[1][0], []).append(e)
             else:
                 names.append(entry_name(e))
+        for k, v in mc.items():
+            names.append("%s[x%d]" % (k, len(v)))
         for (m, rest), sts in by_rest.items():
             names.append("%s(%s,%s)" % (m, ",".join(rest), "<all %d scalar types>" % len(STYPES) if len(sts) == len(STYPES) else "{" + "|".join(sts) + "}"))
         ctx.note("%d of %d manifest instantiations (per T) are ill-formed on this tree and have no executions to check "
                  "(operator=, += and -= only compile between identical xcomplex types, so *= and /= on reference closures, "
-                 "+ and - with a reference-closure right operand, scalar + and scalar - with a reference closure, and unary + on reference closures do not compile): %s" % (
+                 "+ and - with a reference-closure right operand, scalar + and scalar - with a reference closure, unary + on reference closures, and between different value types += and -= and any compound assignment to a reference closure do not compile; "
+                 "no compound operator accepts a std::complex right operand): %s" % (
                      len(ill), len(enabled) + len(ill), " ".join(names)))
     for e in newly:
         ctx.note("instantiation %s is ill-formed on the pinned tree but compiles now: explored" % entry_name(e))
@@ -415,6 +476,10 @@ def run(ctx):
         "the aliasing forms of every compound assignment (z op= z, z op= a (const) reference closure over z's own parts, a reference closure op= the value it aliases, two closures over one storage, z op= z.real() / z.imag(); all (a,b) in V^2), "
         "xcomplex and scalar assignment, == and !=, == and != between different value types (all ordered pairs of float/double/int/long double x 3x3 closure kinds, parts from a separate alphabet of values that are exact in the operand's type and in the common type, "
         "including 0.1 and 1/3 in each precision, 2^24+1, 2^53+1), "
+        "compound assignment x op= y between xcomplex objects of DIFFERENT value types (part mixc: x over T1 in {float,double} as value or T& closure, y over T2 in {float,double,int,long double} minus T1 as value, T2& or const T2& closure, "
+        "2x2 ieee flags, 4 ops; also y converted from a std::complex<T2>, and x op= std::complex<T2> directly; %d instantiations enabled; ALL (a,b) in V(T1)^2 x ALL (c,d) in R^2, R = V(T2) for a floating T2 resp. 0, +-1, 2, 3, -7, 46341, -65536, INT_MAX, INT_MIN for int, "
+        "united with the values of V(T1) that T2 holds and with 1.1*2^(W-1), -1.7*2^-(W-1) of T1's well-scaled band rounded to T2, minus the values whose conversion to T1 overflows or underflows to zero; %d operand tuples, %d evaluations; "
+        "the result is judged in T1's precision against the exact __float128 result of the exact operand values), "
         "the mixed real/complex forms x op s, s op x, x op= s and x = s with a scalar of EVERY standard arithmetic type (part scalar: %d types - bool, the five character types, signed and unsigned short/int/long/long long, float, double, long double - "
         "x 4 ops x closure kinds x ieee flags; all (a,b) in V^2 x the whole alphabet of the scalar's type: integers 0, 1, 3, 7, the top bit, max and for signed types -1, -2, min%s; floating 0, 1, -2, 0.5, 1.5, 3, -7, 0.1 in the scalar's precision, 2^20, inf%s; "
         "%d scalar values in total per T, %d evaluations), unary - and +, conj/proj/abs/arg/norm and 16 forwarded elementary functions (all (a,b) in V^2), pow in its three forms, and the real()/imag() accessor battery. "
@@ -424,6 +489,7 @@ def run(ctx):
         "that at least one value rule judged and that are non-trivial: for arithmetic both effective operands are not a zero; for ==/!= at least one part compares equal or is NaN; for functions the operand is not a zero; "
         "for assignment/accessors the written value differs from the old one" % (
             nv, ", +-min subnormal, -max, 0.1, -pi, sqrt 2, 12345.678, -1/7, 5/3, the well-scaled limits 2^+-W and 2^(W+1), 2^+-(W/2), 1.1*2^(W-1), -1.7*2^-(W-1), the square overflow/underflow thresholds, 1.3*2^(BIG-3), -1.9*2^-(BIG-3), max/2, 1.5*2^(emax-2), pred(max), -(2+2eps)*min, -3*denorm_min" if thorough else "",
+            ctx.stats.get("variants_mixc", 0), ctx.stats.get("mixed_compound_operand_tuples", 0), ctx.stats.get("mixed_compound_evaluations", 0),
             len(STYPES),
             ", 2, 4, 5, 10, 100, 255, 256, top bit +- 1, max - 1, -3, -7, -100, -(top bit), min + 1" if thorough else "",
             ", -0, -1, -0.75, 1/3 in the scalar's precision, -(1+eps), 12345.678, 2^-20, 1e10, 2^24+1, -inf, NaN" if thorough else "",
@@ -434,7 +500,11 @@ def run(ctx):
         "IEEE division by an extreme divisor is judged by value only when the dividend is well-scaled, the divisor's larger part is normal and the exact quotient has magnitude in [2^-1000, 2^1000] (double) / [2^-110, 2^110] (float)",
         "signs of zeros, NaN payloads and results for NaN operands are not judged; an operand with an infinite part counts as an infinity even if the other part is NaN",
         "libstdc++/libgcc std::complex * and / are a second opinion on the rule table (a disagreement aborts the check as a harness error); std::complex functions are the reference for the forwarded elementary functions",
-        "only the three closure kinds (T,T), (T&,T&), (const T&,const T&) are instantiated; mixed kinds such as (T&, T) are not; different value types meet only in == / != (binary arithmetic between them is ill-formed on the pinned tree and probed)",
+        "only the three closure kinds (T,T), (T&,T&), (const T&,const T&) are instantiated; mixed kinds such as (T&, T) are not; different value types meet in == / != and in the compound assignments (binary arithmetic between them is ill-formed on the pinned tree and probed)",
+        "compound assignment between different value types (part mixc): the result has the left operand's value type T1 and 'a few units of rounding' is read in T1's precision (8 eps(T1) normwise); the exact operand values are the reference operands; "
+        "a right-operand value is used only if its conversion to T1 stays finite and non-zero when it is finite and non-zero; well-scaled is decided on the converted values with T1's band; *= and /= are judged by the tolerance for every such operand "
+        "(rounding the right operand to T1 once perturbs it by eps/2 normwise, which * and / keep inside the tolerance), += and -= (ill-formed on the pinned tree, probed) only when T1 holds the right operand exactly; "
+        "after xcomplex<T1>(std::complex<T2>) the converted parts are the operands; left value types are the statement's T in {float,double}: xcomplex<int> and xcomplex<long double> as LEFT operands are not judged",
         "aliased compound assignments are judged by the same value rules with the operand on both sides, and outside the reach of the tolerance rule by equality (up to the sign of zeros) with the binary operator applied to two copies",
         "mixed-type == / != : a part is only used for an operand when it is exactly representable in that operand's type and in the type the built-in comparison converts to, so 'comparing both parts' has a single meaning (int 2^24+1 never meets a float)",
         "scalars of another arithmetic type: the exact value of the scalar (every arithmetic type embeds exactly in x87 long double and in __float128) is the operand of the reference computation; "
